@@ -38,6 +38,7 @@ ASSUMPTIONS = [
     "'hits a scheduled time' is judged with the manager's own rtol/atol",
 ]
 PROBES = [
+    "run_reached_final_time",
     "exact_landing_without_correction",
     "isclose_no_correction_branch",
     "step_back_S5",
@@ -389,7 +390,19 @@ def run_tm_walk(ch, tr: Trace) -> None:
     tr.emit("end", orc.accepted[-1], len(orc.accepted) - 1)
 
 
+def _driver_run(ch, tr):
+    from engines import driver_sim  # imported lazily: driver_sim imports this module for the clock oracle
+
+    return driver_sim.make_run("C09")(ch, tr)
+
+
 WORKLOADS = [
+    Workload(
+        name="driver", run=_driver_run, runs={"quick": 160, "thorough": 12_000}, chunk=10, run_timeout=300.0,
+        real=["pp.run_time_dependent_model", "pp.NewtonSolver", "SolutionStrategy hooks", "pp.TimeManager", "EquationSystem", "SinglePhaseFlow physics"],
+        stub=["fault-injecting overrides of check_convergence / solve_linear_system (pass the real answer through when no fault is due)", "save_data_time_step is a no-op"],
+        note="same clock clauses as tm_walk, observed around the real solve in the real time loop",
+    ),
     Workload(
         name="tm_walk",
         run=run_tm_walk,
